@@ -1,14 +1,14 @@
 // Wrapper TU for the refreshstale unit.
 #include "stubs.h"
 #include "rc_io.h"
-#include "staleness.inc"      // static int refreshStaleness(const StoreEntry *, time_t, const time_t, const RefreshPattern *, stale_flags *)
+#include "staleness.inc"      // static time_t refreshStaleness(const StoreEntry *, time_t, const time_t, const RefreshPattern *, stale_flags *)
 #include "check.inc"          // static int refreshCheck(const StoreEntry *, HttpRequest *, time_t)
 
 extern "C" {
 
 int g_sf_bits;      // stale_flags after the call: 1 expires, 2 min, 4 lmfactor, 8 max
 
-int rs_refreshStaleness(time_t expires, time_t timestamp, time_t lastmod, time_t check_time, time_t age,
+long rs_refreshStaleness(time_t expires, time_t timestamp, time_t lastmod, time_t check_time, time_t age,
                         time_t rmin, double pct, time_t rmax, int sf_in_bits)
 {
     StoreEntry e;
@@ -24,7 +24,7 @@ int rs_refreshStaleness(time_t expires, time_t timestamp, time_t lastmod, time_t
     sf.min = (sf_in_bits & 2) != 0;
     sf.lmfactor = (sf_in_bits & 4) != 0;
     sf.max = (sf_in_bits & 8) != 0;
-    const int r = refreshStaleness(&e, check_time, age, &R, &sf);
+    const time_t r = refreshStaleness(&e, check_time, age, &R, &sf);
     g_sf_bits = (sf.expires ? 1 : 0) | (sf.min ? 2 : 0) | (sf.lmfactor ? 4 : 0) | (sf.max ? 8 : 0);
     return r;
 }
